@@ -18,7 +18,17 @@ fn run(s: &[i128]) -> Vec<i128> {
         il.lock().unwrap().push(r);
         async move { if ik == 0 { Ok::<i128, i128>(iv + 11 * r) } else { Err(iv) } }
     });
+    let pm_mode = pm % 4;
+    let handle_first = pm >= 4;      // builder order: handle() before the strategy setter
     let b = FallbackLayer::<i128, i128, i128>::builder();
+    let b = if handle_first {
+        match pm_mode {
+            0 => b,
+            1 => b.handle(|e: &i128| e % 2 == 0),
+            2 => b.handle(|_e: &i128| true),
+            _ => b.handle(|_e: &i128| false),
+        }
+    } else { b };
     let b = match st {
         0 => b.value(v),
         1 => b.value_fn(move || v + 1),
@@ -33,12 +43,14 @@ fn run(s: &[i128]) -> Vec<i128> {
         }
         _ => b.exception(|e: i128| fx(e)),
     };
-    let b = match pm {
-        0 => b,
-        1 => b.handle(|e: &i128| e % 2 == 0),
-        2 => b.handle(|_e: &i128| true),
-        _ => b.handle(|_e: &i128| false),
-    };
+    let b = if !handle_first {
+        match pm_mode {
+            0 => b,
+            1 => b.handle(|e: &i128| e % 2 == 0),
+            2 => b.handle(|_e: &i128| true),
+            _ => b.handle(|_e: &i128| false),
+        }
+    } else { b };
     let layer = b.build();
     let mut svc = layer.layer(inner);
     let rt = paused_rt();
